@@ -1,7 +1,7 @@
 SPECIFICATION TSpec
 CONSTANTS
   Jids = {"c1", "c2", "c3"}
-  MaxVer = 3
+  Items <- ItemsFields
   Ress = {"r1", "r2", "bare"}
   Froms = {"absent", "ownBare", "ownFull", "ownOther", "server", "stranger", "contact", "look1", "look2", "look3"}
   ConnKinds = {"plain", "sm", "smr", "resumed"}
